@@ -86,6 +86,7 @@ TYPES_BY_ARITY = {
 EFFECTORS = {'dist': (2, ParamDistance), 'angle': (3, ParamAngle),
              'dihedral': (4, ParamDihedral), 'dihphase': (4, ParamDihedralPhase)}
 BANG_DIHEDRALS = os.environ.get('C05_BANG_DIHEDRALS') == '1'
+REMOVAL_ORDER_ATTR = os.environ.get('C05_REMOVAL_ORDER_ATTR') == '1'
 
 
 def order_prefix(code):
@@ -258,7 +259,7 @@ def gen_interaction(d, keys, target_edges, mode):
     if type_ in ref.EDGE_TYPES and not is_path and d.pr(60):
         meta['edge'] = False
     if d.pr(25):
-        meta['version'] = d.ri(1, 2)
+        meta['version'] = d.ch([1, 1, 2, 2, 0])
     if d.pr(20):
         meta['comment'] = 'c%d' % d.ri(0, 3)
     if d.pr(15):
@@ -442,6 +443,12 @@ def gen_link(d, mol, mode, previous):
                 link['removed'].append([type_, [key_of[a] for a in atoms], [[] for _ in atoms], rparams, rmeta])
             elif len(keys) >= 2:
                 link['removed'].append(gen_removal(d, link, keys, target, mode))
+
+    if BANG_DIHEDRALS and mode == 'text':
+        # demonstration of the known parser defect only (off by default)
+        for inter in link['inter']:
+            if inter[0] == 'dihedrals' and not any(r[0] == 'dihedrals' for r in link['removed']):
+                link['removed'].append(['dihedrals', list(inter[1]), [[] for _ in inter[1]], [], {}])
 
     # non-edges
     anchors = [node['key'] for node in link['nodes'] if node['order'] == 0 and isinstance(node['order'], int)]
@@ -842,7 +849,7 @@ def _render_link(link, macros):
             tokens = []
             for key, specs in zip(keys, atom_specs):
                 extra = {k: _inline_value(s) for k, s in specs}
-                tokens.append(reference(key, allow_order_attr=False, extra=extra, with_attrs=False))
+                tokens.append(reference(key, allow_order_attr=REMOVAL_ORDER_ATTR, extra=extra, with_attrs=False))
             tail = [param_text(p) for p in params]
             if meta:
                 tail.append(json.dumps(meta))
@@ -1283,10 +1290,34 @@ def _run_shipped(case):
     return Outcome(classes, placed >= 10 and links_placed >= 3)
 
 
+def _match_bang_dihedrals(params, part_name, case, violation):
+    # [ !dihedrals ] in a link is parsed as an interaction type "!dihedrals" instead of a removal
+    return (part_name == 'toy' and case['mode'] == 'text'
+            and any(r[0] == 'dihedrals' for link in case['links'] for r in link['removed']))
+
+
+def _match_removal_order_attr(params, part_name, case, violation):
+    # a removal line that gives the order as attribute ({"order": 1}) instead of a prefix never removes
+    return (REMOVAL_ORDER_ATTR and part_name == 'toy' and case['mode'] == 'text'
+            and violation.bucket in ('interaction-extra', 'interaction-missing')
+            and any(link['removed'] for link in case['links']))
+
+
+MATCHERS = {
+    'bang_dihedrals': _match_bang_dihedrals,
+    'removal_order_attr': _match_removal_order_attr,
+}
+
 PARTS = [
     Part('toy', _run_toy, strategy=_strategy_toy,
-         examples={'quick': 1400, 'thorough': 30000}),
+         examples={'quick': 1400, 'thorough': 30000},
+         floors={'mode:text': 0.3, 'mode:object': 0.3, 'multi-placement': 0.3, 'decided:attr': 0.5,
+                 'decided:edge-missing': 0.15, 'decided:edge-extra': 0.03, 'decided:order': 0.15,
+                 'decided:non-edge': 0.03, 'decided:pattern': 0.03, 'decided:molmeta': 0.04,
+                 'removed-hits': 0.04, 'overrides': 0.08, 'node-deleted': 0.04, 'replace-applied': 0.1,
+                 'symmetric-placements': 0.015, 'effector': 0.2, 'self-replaced': 0.02}),
     Part('order-table', _run_table, enumerate=_enumerate_table),
     Part('shipped', _run_shipped, strategy=_strategy_shipped,
-         examples={'quick': 320, 'thorough': 6000}),
+         examples={'quick': 320, 'thorough': 6000},
+         floors={'removed-hits': 0.2, 'overrides': 0.15, 'effector': 0.05}),
 ]
